@@ -29,6 +29,27 @@ CHECKS = {
         technique="deterministic simulation: seeded traversal-order schedules over the real builder, wildcard lists compared with reachability of T:* nodes in the reference graph",
         text="Seeded exploration. Under every schedule of the family the wildcard list of every relation/operator/type node and of every edge must equal (as a set, without duplicates) the set of public types reachable in the reference graph; wildcard-heavy generator bias (inside/behind tuple cycles, under intersections/exclusions).",
         note=NOTE_COMMON + " The wildcard node's own list is not compared (statement silent on zero-length reachability)."),
+
+    "C07": dict(engine="mergesim", design="§7.6, §8 C07",
+        technique="deterministic simulation: seeded map-iteration schedules, delivery permutation/duplication, cold/warm parser history and concurrent merges over the real merger, compared with a reference merge computed from the generator's plan",
+        text="Seeded exploration. Generated module sets (half conflict-free, half with injected conflicts of every kind of the statement) are merged under schedules over the six merger map sites, after cold restarts and warm-up histories, in permuted delivery orders and with a file delivered twice; success iff the plan is conflict-free, the returned model equals the plan's attributed union (types, relations, rewrites, restrictions, conditions, module/file attribution, GetModuleForObjectTypeRelation, schema version), on conflict a non-nil error with nil model naming a file that may be blamed for every conflict, never a panic.",
+        note=NOTE_COMMON + " Expected outcomes are derived from the plan (worker/mergesim.go); parse errors are not required to name their file."),
+    "C12": dict(engine="mergesim", design="§8 C12",
+        technique="deterministic simulation: same file list merged under many seeded map schedules, histories and interleavings; permuted file lists; outcomes compared with the canonical run",
+        text="Seeded exploration with a self-consistency oracle: for one file list the full outcome (model with proto.Equal, or the sequence of (message, file, line, column)) must be identical under every schedule of the family, after cold/warm parser histories and in 2-3 concurrent merges; for permuted file lists success/failure must not change and successful models must be equal after sorting type definitions by name.",
+        note=NOTE_COMMON + " Decides independence from schedule and file order, not functional correctness (that is C07)."),
+    "C13": dict(engine="puresim", design="§4, §7.5, §8 C13",
+        technique="deterministic simulation of 1-4 caller threads under a seeded serialising scheduler that is invisible to the race detector (plain + -race builds), with cold restarts of the parser caches, warm histories and shared inputs; results compared with the sequential cold reference, inputs with deep copies",
+        text="Seeded exploration. Real goroutines, one running at a time, hand-off through plain memory in //go:norace code so ThreadSanitizer learns no happens-before edge from the simulator: unsynchronised sharing between serialised tasks is reported deterministically and replays from the tape. Every public transformer/graph/validator call's complete result must equal the sequential cold-start reference (stateless sequential specification: linearizable iff equal), every input must equal its deep copy after every call, no deadlock, bounded steps.",
+        note=NOTE_COMMON + " ulid's own locked entropy source is stubbed; interleavings at yield-point granularity; which sentinel error the weighted graph returns is not compared."),
+    "C14": dict(engine="rendersim", design="§7.8, §8 C14",
+        technique="deterministic simulation: seeded map-iteration schedules over the printer, JSON key-order and type-order delivery permutations, repeated calls; bytes compared with the canonical run and with an executable statement of the documented order",
+        text="Seeded exploration. Output bytes must be identical under every schedule over the printer's map sites, for JSON re-encodings with shuffled object keys, for permuted type definitions of modular models and across repeated calls; the sequence of type/relation/condition/parameter names must equal the documented order computed from the plan; with source information, stripping comments must give the plain output and both must parse to proto.Equal models.",
+        note=NOTE_COMMON + " The documented order (worker/rendersim.go) encodes the statement."),
+    "C17": dict(engine="plainsim", design="§7.7, §8 C17",
+        technique="deterministic simulation: seeded schedules over gonum's map iterators/ranges and the ULID clock under the real plain graph, Reversed, DOT, PathExists, GetCycles; compared with an executable reference plain graph and across schedules",
+        text="Seeded exploration. For every generated model and schedule: nodes and typed edges equal the reference plain graph (operators matched by position), Reversed flips every edge and the direction and nothing else, reverse-twice DOT equals DOT, DOT and reversed DOT are byte-identical across schedules and contain no ULID, PathExists equals reference reachability for all label pairs (bounded to 17 labels) and is dual on the reversed graph, label lookup finds exactly type/relation/wildcard nodes, computed-only cycles are reported and acyclic models report none.",
+        note=NOTE_COMMON + " gonum iterator overlay replaces reflect.MapIter by an order-controlled iterator; plain edge conditions are not observable."),
 }
 
 NOT_APPLICABLE = {
@@ -43,13 +64,7 @@ NOT_APPLICABLE = {
     "C19": "static comparison of generated artefacts across three languages: nothing executes, so there is nothing to schedule or fault",
 }
 
-PENDING = {
-    "C07": "check under construction in this session (mergesim engine); will be claimed once it runs",
-    "C12": "check under construction in this session (mergesim engine); will be claimed once it runs",
-    "C13": "check under construction in this session (puresim engine); will be claimed once it runs",
-    "C14": "check under construction in this session (puresim engine); will be claimed once it runs",
-    "C17": "check under construction in this session (plainsim engine); will be claimed once it runs",
-}
+PENDING = {}
 
 def main():
     checks = []
@@ -70,7 +85,8 @@ def main():
     engines = [
         {"name": "wgsim", "path": "worker/wgsim.go", "serves_properties": ["C04", "C05", "C06", "C10", "C11"], "kind_free_text": "deterministic simulation of the weighted graph builder: seeded map-order/ULID-clock/interleaving schedules + reference models"},
         {"name": "mergesim", "path": "worker/mergesim.go", "serves_properties": ["C07", "C12"], "kind_free_text": "deterministic simulation of the module merger: seeded map schedules, file delivery permutation/duplication + plan-derived reference merge"},
-        {"name": "puresim", "path": "worker/puresim.go", "serves_properties": ["C13", "C14"], "kind_free_text": "deterministic simulation of concurrent callers: seeded serialising scheduler invisible to the race detector, cold restarts, warm histories, shared inputs"},
+        {"name": "rendersim", "path": "worker/rendersim.go", "serves_properties": ["C14"], "kind_free_text": "puresim's render mode: seeded map schedules over the DSL printer, JSON key-order / type-order permutations, repeated calls"},
+        {"name": "puresim", "path": "worker/puresim.go", "serves_properties": ["C13"], "kind_free_text": "deterministic simulation of concurrent callers: seeded serialising scheduler invisible to the race detector, cold restarts, warm histories, shared inputs"},
         {"name": "plainsim", "path": "worker/plainsim.go", "serves_properties": ["C17"], "kind_free_text": "deterministic simulation of the gonum-backed plain graph: seeded gonum map-iterator schedules + reference plain graph"},
     ]
     engines = [e for e in engines if any(p in CHECKS for p in e["serves_properties"])]
